@@ -59,7 +59,7 @@ var faultShapes = []faultShape{
 	{Query: `sum(m0 @ 3660 + on(a) group_left m1)`},
 	{Query: `count(m1 > bool on(a) group_right m0 @ end())`},
 	// included labels on a comparison that keeps the metric name: the output label sets are built from the many side's
-	{Query: `m0 > on(a) group_left(b) m1`},
+	{Query: `m0 > on(a) group_left(Z) m1`},
 	{Query: `m1 < on(a) group_right(Z) m0`},
 	{Query: `sum by (a) (m0)`, Dist: true},
 	{Query: `m0`, Dist: true},
@@ -921,6 +921,8 @@ func (p *faultProp) checkCancelRace(c Case) Outcome {
 					return o
 				}
 				o.Count("completed", 1)
+			case !isCtxErr(res.Err) && full.Out.Res.Err != nil:
+				o.Count("completed", 1) // the query fails by itself, cancelled or not
 			case !isCtxErr(res.Err):
 				o.Add("non-context-error", fmt.Sprintf("round %d: Exec raced by Cancel returned a non-context error: %v", k, res.Err))
 				return o
